@@ -332,34 +332,3 @@ func coqCase(name string, c *Case) string {
 }
 
 const shardSize = 200
-
-// writeCoq writes cases_<i>.v (shards of shardSize cases in the Coq domain;
-// case k of a shard is the k-th such case in order).  Returns the number of
-// shards.
-func writeCoq(cases []*Case, out string) int {
-	var sel []*Case
-	for _, c := range cases {
-		c.InCoq = inCoqDomain(c)
-		if c.InCoq {
-			sel = append(sel, c)
-		}
-	}
-	shards := 0
-	for i := 0; i < len(sel); i += shardSize {
-		j := i + shardSize
-		if j > len(sel) {
-			j = len(sel)
-		}
-		var b strings.Builder
-		var names []string
-		for k, c := range sel[i:j] {
-			n := fmt.Sprintf("c%d", k)
-			names = append(names, n)
-			fmt.Fprintf(&b, "(* case %d *)\n%s\n", c.Id, coqCase(n, c))
-		}
-		fmt.Fprintf(&b, "Definition cases : list c10_case := %s.\n", vh.ListNL(names))
-		vh.WriteFile(out, fmt.Sprintf("cases_%d.v", shards), b.String())
-		shards++
-	}
-	return shards
-}
